@@ -145,6 +145,8 @@ fn check_label_positions_item(ctx: &mut Ctx, n: Item) {
         (Ty::Header, m(vec![(Item::int(2), Item::Array(vec![Item::int(1), n.clone()]))]), "crit second element"),
         (Ty::Header, m(vec![(Item::int(2), Item::Array(vec![n.clone(), Item::int(4), Item::text("x")]))]), "crit first of three"),
         (Ty::Key, m(vec![(Item::int(1), Item::int(1)), (Item::int(4), Item::Array(vec![Item::int(1), n.clone()]))]), "key op second element"),
+        (Ty::Header, m(vec![(n.clone(), Item::int(0)), (Item::int(2), Item::Array(vec![Item::int(1), n.clone()]))]), "crit element that is also a label of the map (before crit)"),
+        (Ty::Header, m(vec![(Item::int(2), Item::Array(vec![n.clone()])), (n.clone(), Item::Bytes(vec![1]))]), "crit element that is also a label of the map (after crit)"),
         (Ty::Header, m(vec![(Item::int(3), n.clone())]), "content type"),
         (Ty::Key, m(vec![(Item::int(1), n.clone())]), "kty"),
         (Ty::Key, m(vec![(Item::int(1), Item::int(1)), (Item::int(3), n.clone())]), "key alg"),
